@@ -308,7 +308,17 @@ def id_suffix(prog, feat):
 def explore(rec):
     quick = rec.tier == "quick"
     rec.hyp("junit-runs", case_st(), 6000 if quick else 80000)
-    rec.hyp("cli-non-utf8-locale", case_st().map(lambda c: dict(c, kind="cli")), 48 if quick else 600)
+    def cli_case(c):
+        # at least one scenario name outside ASCII (every second case keeps what was drawn)
+        c = dict(c, kind="cli")
+        for f in c["program"]["features"]:
+            for it in f["items"]:
+                for sub in (it["items"] if it["k"] == "r" else [it]):
+                    if sub.get("name") is None:
+                        sub["name"] = u"Pr\u00fcfung \u6771\u4eac %d" % len(f["items"])
+                        return c
+        return c
+    rec.hyp("cli-non-utf8-locale", case_st().map(cli_case), 48 if quick else 600)
 
 
 def required_labels(tier):
